@@ -337,7 +337,8 @@ class GridBlueprint(yamlize.Object):
         # set geometric metadata on spatialGrid. This information is needed in various
         # parts of the code and is best encapsulated on the grid itself rather than on
         # the container state.
-        spatialGrid._geomType: str = str(self.geom)
+        # through the property, which stores the canonical name of the geometry type
+        spatialGrid.geomType = str(self.geom)
         self.symmetry = str(symmetry)
         spatialGrid._symmetry: str = self.symmetry
         return spatialGrid
